@@ -171,6 +171,9 @@ func (g *gen) spec(e *env, x ast.Expr) sval {
 		case "nil":
 			return sval{nil_: true, t: "0", sort: "Int"}
 		case "result":
+			if v, ok := e.resolve(n.Name); ok {
+				return v // a parameter or local named result
+			}
 			if len(e.results) == 0 {
 				g.specFail(x, "no result here")
 			}
@@ -685,6 +688,17 @@ func (g *gen) specCall(e *env, n *ast.CallExpr) sval {
 			}
 		}
 		g.specFail(n, "heapEq: no such field")
+	}
+	// contract-file predicate (macro)
+	if pr, ok := filePreds[name]; ok {
+		if len(pr.Params) != len(n.Args) {
+			g.specFail(n, "%s expects %d arguments", name, len(pr.Params))
+		}
+		ce := e.child()
+		for i, pn := range pr.Params {
+			ce.names[pn] = arg(i)
+		}
+		return g.spec(ce, pr.Expr)
 	}
 	// spec-library function
 	if sig, ok := g.P.specFuncs[name]; ok {
